@@ -38,6 +38,10 @@ def make_base(tmp):
 
 
 def apply_edits(d, edits):
+    if isinstance(edits, str):
+        # a patch file (seeded change recorded under /verif/seeded)
+        r = subprocess.run(["patch", "-p1", "-s", "-d", d, "-i", edits], capture_output=True, text=True)
+        return None if r.returncode == 0 else "patch does not apply: " + (r.stdout + r.stderr)[-200:]
     for rel, old, new in edits:
         p = os.path.join(d, rel)
         with open(p, encoding="utf-8") as fh:
@@ -110,6 +114,22 @@ def run(props=None, only=None, jobs=12):
             if props and not (set(expected) & set(props)):
                 continue
             work.append((tmp, base, "breaking", name, expected, edits, props))
+        seeded_dir = os.path.join(os.path.dirname(HERE), "seeded")
+        if os.path.isdir(seeded_dir):
+            for sd in sorted(os.listdir(seeded_dir)):
+                mp = os.path.join(seeded_dir, sd, "meta.json")
+                pp = os.path.join(seeded_dir, sd, "patch.diff")
+                if not (os.path.exists(mp) and os.path.exists(pp)):
+                    continue
+                with open(mp) as fh:
+                    meta = json.load(fh)
+                expected = meta.get("caught_by") or {}
+                name = "S-" + sd
+                if only and only not in name:
+                    continue
+                if not expected or (props and not (set(expected) & set(props))):
+                    continue
+                work.append((tmp, base, "breaking", name, expected, pp, props))
         for name, edits in mutants.PRESERVING:
             if only and only not in name:
                 continue
